@@ -83,6 +83,10 @@ def run(ctx):
         sc = ctx.rng.choice([0.25, 1, 2, 4])
         y = [ctx.rng.randint(-8, 8) / 4 * sc for _ in range(m)]
         cases.append((m, k, y, S, "random"))
+        if ctx.rng.random() < 0.25:
+            # the same decision problem in other units (a clock offset in seconds with picosecond noise): innovation * 2^-30,
+            # inverse innovation covariance * 2^60 - the normalised innovation squared, and so the decision, is unchanged
+            cases.append((m, k, [v * 2.0 ** -30 for v in y], [[v * 2.0 ** 60 for v in row] for row in S], "random-small-units"))
     drv = core.Driver()
     lines = []
     for m, k, y, S, tag in cases:
@@ -128,6 +132,26 @@ def run(ctx):
                 ctx.broke(f"correspondence:decision ({name} vs binary64 threshold model)", {"impl": dec, "model": expected_float}, case)
         if len(set(impls.values())) > 1:
             ctx.fail(f"decision-disagree:{tag}", f"implementations disagree on the same (innovation, S^-1, k): {impls}", case)
+    # the threshold may be given as any number type (an int, a numpy integer or 32-bit float, a Fraction): same decisions as for the float
+    import fractions
+    typed = [("int", 4), ("numpy.int64", np.int64(4)), ("numpy.float32", np.float32(4.0)), ("Fraction", fractions.Fraction(4))]
+    ref = tiny_ekf(4.0)
+    for label, kv in typed:
+        try:
+            other = tiny_ekf(kv)
+        except Exception as e:
+            ctx.fail(f"compile-ekf-raises:{fk.exc_kind(e)}:threshold-type", f"a threshold given as {label} is refused: {e!r}"[:300], {"k": label}); continue
+        for _ in range(6 if ctx.quick else 40):
+            m = ctx.rng.randint(1, 4)
+            y = np.array([[ctx.rng.randint(-12, 12) / 2] for _ in range(m)], dtype=float)
+            Sinv = np.eye(m) * ctx.rng.choice([0.5, 1.0, 4.0])
+            case = {"stream": "threshold-type", "k_given_as": label, "m": m, "innovation": y.reshape(-1).tolist(), "S_inv_diag": float(Sinv[0, 0])}
+            ctx.case(case, True); ctx.count("stream=threshold-type")
+            with fk.quiet():
+                a_, b_ = bool(ref.remove_innovation(y, Sinv)), bool(other.remove_innovation(y, Sinv))
+            if a_ != b_:
+                ctx.fail("decision:python:threshold-type", f"k = 4 given as {label}: decision {b_}, given as float: {a_}", case)
+                break
     # filter stream: rejections through sensor_model leave everything untouched
     nf = 6 if ctx.quick else 60
     for i in range(nf):
@@ -167,6 +191,10 @@ def run(ctx):
                 ctx.count("inside_rounding_band"); continue
             should = thr is not None and float(want["nis"]) > thr
             st, cv = eh.state_obj(ekf, pt), eh.cov_obj(ekf, P)
+            if rep % 2 == 1 and len(Ls) >= 2:
+                # a covariance that is symmetric only up to rounding (what a prediction step hands over): off by one ulp in one entry
+                cv.data[0, len(Ls) - 1] = np.nextafter(cv.data[0, len(Ls) - 1], np.inf)
+                ctx.count("covariance_symmetric_up_to_one_ulp")
             zr = ekf.make_reading(key, **{r: float(v) for r, v in z.items()})
             snap = (st.data.copy(), cv.data.copy())
             try:
